@@ -129,6 +129,7 @@ impl Prop for C10 {
     fn check(&self, c: &Case, st: &mut Stats) -> Result<(), Failure> {
         st.eval();
         let pol = c.spec.policy;
+        prime(&c.site, &c.spec, c.date, None, prime_selector(&c.site, c.date));
         let got = compute(&c.site, &c.spec, c.date, None);
         let mut cs = c.spec.clone();
         cs.policy = gen::P_NONE;
